@@ -1,7 +1,7 @@
 (* Dispatcher used by the correspondence check: the model's answer for one case line.
    Function codes are assigned in driver/fncodes.py (single source of the numbering). *)
 From Coq Require Import NArith List Bool.
-From RQ Require Import Base.Outcome Base.Ints Base.ListX Gen.Consts Spec.GF256 Spec.Wire Spec.Oti Model.Octet Model.Wire Model.Oti Model.Cache.
+From RQ Require Import Base.Outcome Base.Ints Base.ListX Gen.Consts Spec.GF256 Spec.Wire Spec.Oti Model.Octet Model.Wire Model.Oti Model.Cache Model.RunCodec.
 Import ListNotations.
 Open Scope N_scope.
 
@@ -71,7 +71,28 @@ Definition run_wire (f : N) (a : list N) : list N :=
   | _ => [0; 99]
   end.
 
+(* end-to-end codec groups: 200..249 Release, 210.. Checked, 250.. Spec oracles *)
+Definition run_codec (f : N) (a : list N) : list N :=
+  match f with
+  | 200 => run_enc_packets Release a
+  | 201 => run_repair_window Release a
+  | 202 => run_codec_hist Release a
+  | 203 => run_sbd_hist Release a
+  | 204 => run_intermediate Release a
+  | 210 => run_enc_packets Checked a
+  | 211 => run_repair_window Checked a
+  | 212 => run_codec_hist Checked a
+  | 213 => run_sbd_hist Checked a
+  | 214 => run_intermediate Checked a
+  | 205 => run_layout_packets Release a
+  | 206 => run_layout_roundtrip Release a
+  | 250 => run_spec_block_packets a
+  | 251 => run_spec_layout_packets a
+  | _ => [0; 99]
+  end.
+
 Definition run (f : N) (a : list N) : list N :=
   if f <? 100 then run_octet f a
   else if f <? 200 then run_wire f a
+  else if f <? 300 then run_codec f a
   else [0; 99].
